@@ -1,7 +1,7 @@
 """C05 — rolling appender never loses, duplicates, reorders or splits records.
 case format / comparison: gen/rollcommon.py (shared with C06, C17)."""
 from gen import rollcommon as rc
-from gen.rollcommon import model_lines, compare, classify, describe, extra_coverage  # noqa: F401
+from gen.rollcommon import model_lines, compare, classify, describe, extra_coverage, run_impl  # noqa: F401
 
 RULE = ("random histories of up to 30 ops on the real RollingFileAppender: trigger in {SizeTrigger(limit around the "
         "record sizes, 0, 1024+-1), OnStartUpTrigger(min 0..6), scripted user Trigger pre-/post-processing whose i-th "
